@@ -246,7 +246,7 @@ def ord3_ord5c(ctx: Ctx):
     if not searched:
         raise AnalysisError("ORD3: NOT_REG_NAME is never applied in _encode_host (anchor vanished)")
     rule = "ORD5c"
-    ctx.rule(rule, floor=2, what="with validate_host, every returned registered name was validated after encoding")
+    ctx.rule(rule, floor=1, what="with validate_host, every returned registered name was validated after encoding")
     seen = {}
     for s, v, node in r.returns:
         if truth(("param", "validate_host"), s.facts) is not True:
